@@ -52,6 +52,9 @@ LEVEL = {
  "C20": ("model_checking", "explicit-state enumeration of reference-operation histories on a real opened segment, plus stateless model checking of concurrent holders under a controlled scheduler and a free-running race-detector pass",
          "every AddRef/DecRef/Close history up to the bound is executed on a real mmap-opened segment with a full read in every state and /proc inspection of mapping and descriptor; concurrent holders are explored over all interleavings (2 holders) / preemption-bounded (3 holders) at the segment's lock points",
          "holders only take references while holding one; /proc/self/maps and /proc/self/fd are the release oracle; reference count read through a verif-tagged hook", "4 C20"),
+ "C10": ("model_checking", "exhaustive enumeration of build histories with a deterministic pool model (environment-deviation bounded) and stateless model checking of concurrent builds under a controlled scheduler, plus real-pool and race-detector passes",
+         "every sequence of builds over an 8/10-item batch menu up to length 3/4 is run in one process with maximal builder reuse forced (and the pool's other legal answers explored as bounded deviations), and every pair/triple of concurrent builds is explored over all interleavings at pool operations; every build must equal the reference of its own batch",
+         "sync.Pool replaced at build time by a deterministic model in the scheduler flavours; the real pool is exercised with the GC disabled", "4 C10"),
  "C01": ("exploration", "bounded-exhaustive input enumeration on the implementation vs. reference model",
          "every batch of a stated finite alphabet (cell menu per document x field, N<=3; column and chunk-boundary families) x chunk modes x both build tags is built by the real code and its complete term/postings content compared with an independent reference model; exhaustive within the bounds, no sampling",
          "reference model in harness/ref; inputs only inside the alphabet; Go map order not enumerable (semantic oracle)", "4 C01"),
